@@ -10,6 +10,7 @@ package main
 //   schema <name>:<int|bigint|varchar|boolean> ...
 //   map <dst,dst,...> <src,src,...> <separator code point>
 //   csv <hex of the input bytes>
+//   table <hex of the table name>          (optional, default "t")
 //   program <hex of the first input> <hex of the second input>
 // Output (VERIF_CSV_OUT), per case: begin / types ... / rec|recerr ... /
 // ev ok|err ... / row ... / end.  The database lives under VERIF_CSV_DIR.
@@ -94,6 +95,7 @@ func TestVerifCsvDriver(t *testing.T) {
 	caseNo := 0
 	var fields []storage.FieldDef
 	var cfg importCfg
+	tableName := "t"
 	for sc.Scan() {
 		f := strings.Fields(sc.Text())
 		if len(f) == 0 {
@@ -103,6 +105,11 @@ func TestVerifCsvDriver(t *testing.T) {
 		case "case":
 			caseNo++
 			fields = nil
+			tableName = "t"
+		case "table":
+			if b, err := hex.DecodeString(f[1]); err == nil {
+				tableName = string(b)
+			}
 		case "schema":
 			for _, c := range f[1:] {
 				p := strings.Split(c, ":")
@@ -110,7 +117,7 @@ func TestVerifCsvDriver(t *testing.T) {
 				fields = append(fields, storage.FieldDef{Name: p[0], DataType: ty, Len: 255})
 			}
 		case "map":
-			cfg = importCfg{table: "t", dstCols: strings.Split(f[1], ",")}
+			cfg = importCfg{table: tableName, dstCols: strings.Split(f[1], ",")}
 			for _, s := range strings.Split(f[2], ",") {
 				var n int
 				fmt.Sscan(s, &n)
@@ -137,7 +144,7 @@ func TestVerifCsvDriver(t *testing.T) {
 					fmt.Fprintln(w, "setuperr", err)
 					return
 				}
-				if err := rm.CreateTable(&storage.Relation{Fields: fields}, "t"); err != nil {
+				if err := rm.CreateTable(&storage.Relation{Fields: fields}, tableName); err != nil {
 					fmt.Fprintln(w, "setuperr", err)
 					return
 				}
@@ -178,7 +185,7 @@ func TestVerifCsvDriver(t *testing.T) {
 						}
 						fmt.Fprintln(w, strings.TrimSpace(fmt.Sprintf("prec %d %s", run+1, strings.Join(parts, " "))))
 					}
-					args := []string{"-db", db, "-table", "t", "-dest-cols", strings.Join(cfg.dstCols, ","),
+					args := []string{"-db", db, "-table", tableName, "-dest-cols", strings.Join(cfg.dstCols, ","),
 						"-src-cols", strings.Join(srcs, ","), "-separator", string(cfg.separator)}
 					cmd := exec.Command(os.Args[0], "-test.run=^TestVerifCsvMain$")
 					cmd.Env = append(os.Environ(), "VERIF_CSV_MAIN_ARGS="+strings.Join(args, "\x1f"))
@@ -197,7 +204,7 @@ func TestVerifCsvDriver(t *testing.T) {
 					return
 				}
 				defer rm2.Close()
-				rows, _, err := rm2.Fetch("t")
+				rows, _, err := rm2.Fetch(tableName)
 				if err != nil {
 					fmt.Fprintln(w, "fetcherr")
 					return
